@@ -102,7 +102,7 @@ def jScanErr : Option ScanErr → Json
 
 def jErr : Err → Json
   | .badLabel => "label" | .dupLabel => "dup" | .glob => "glob" | .output => "output"
-  | .binOutput => "binout" | .binNotFile => "binnotfile" | .timeout => "timeout" | .nilEntry => "nil"
+  | .binOutput => "binout" | .binNotFile => "binnotfile" | .timeout => "timeout" | .nilEntry => "nil" | .badName => "name"
 
 /-- association table [[key, value|null], ...] → lookup (missing key = none) -/
 def tableOf {α} (j : Json) (k : String) (f : Json → Except String α) :
